@@ -6,6 +6,8 @@ The top level CLI is defined in ../__init__.py. This module defines the CLI for
 
 from . import dna
 from . import dna as rna
+from . import dna as nucleotide
+from . import dna as nt
 from . import protein
 from . import protein as aa
 from . import protein as prot
